@@ -442,15 +442,17 @@ CONTRACT = {
     "removeForeign": ("ValueError",),
     "addWrongType": ("TypeError",),
     "coreAddOcc": ("ValueError",),
+    "coreAddPresent": ("RuntimeError", "ValueError"),
+    "sfpAddPresent": ("RuntimeError", "ValueError"),
     "sort": ("ValueError", "NotImplementedError", "TypeError"),
 }
-MISUSE = ("addDup", "insertDup", "removeForeign", "addWrongType", "coreAddOcc")
+MISUSE = ("addDup", "insertDup", "removeForeign", "addWrongType", "coreAddOcc", "coreAddPresent", "sfpAddPresent")
 # violation classes of pure observers (model and tree are still in step): the search is repeated
 # tolerating them, so that the states behind them are explored too
 
 
 def tolerable(key):
-    return key == "c01/detached-multilocation-sublocations-attached" or key.startswith(("c01/query/", "c01/copy-", "c01/grid-owner-mismatch"))
+    return key == "c01/detached-multilocation-sublocations-attached" or key.startswith(("c01/query/", "c01/query-result", "c01/copy-", "c01/grid-owner-mismatch"))
 
 
 def enabled_ops(w, m):
@@ -522,6 +524,9 @@ def enabled_ops(w, m):
             ops.append(["insert", p, 0, x])
         if w.kind[p] == "A" and cfg.get("liteasm"):
             ops.append(["reorder", p])
+        if ks:
+            ops.append(["addDup", p, ks[0]])
+            ops.append(["insertDup", p, 0, ks[-1]])
     if "core" in cfg:
         c, s, r = cfg["core"], cfg["sfp"], cfg["reactor"]
         ks = m.kids[c]
@@ -534,8 +539,15 @@ def enabled_ops(w, m):
             ops.append(["sfpAdd", x])
             if ks:
                 ops.append(["coreAddOcc", x])
+        if ks:
+            # an assembly that is ALREADY a child: at a still-free cell, at its own cell
+            ops.append(["coreAddPresent", "free"])
+            ops.append(["coreAddPresent", "same"])
+            ops.append(["coreAddPresent", "none"])
         if m.kids[s]:
             ops.append(["remove", s, 0])
+            ops.append(["sfpAddPresent"])
+        ops.append(["addDup", r, c])
         ops.append(["sort", r])
         ops.append(["sort", c])
     return ops
@@ -720,6 +732,23 @@ def apply(w, m, op, check):
             if name == "coreAdd":
                 _model_simple(w, m, op)
                 post = ("cell", C, X, cell)
+        elif name == "coreAddPresent":
+            C = w.objs[w.cfg["core"]]
+            method = _method(C, "add") + "-present"
+            X = _pick(C, -1)
+            if op[1] == "free":
+                cell = _free_cell(w)
+                if cell is None:
+                    return "noop", viols
+                C.add(X, C.spatialGrid[cell[0], cell[1], 0])
+            elif op[1] == "same":
+                C.add(X, X.spatialLocator)
+            else:
+                C.add(X)
+        elif name == "sfpAddPresent":
+            S = w.objs[w.cfg["sfp"]]
+            method = _method(S, "add") + "-present"
+            S.add(_pick(S, 0))
         elif name == "sfpAdd":
             S, X = w.objs[w.cfg["sfp"]], w.objs[op[1]]
             method = _method(S, "add")
@@ -987,6 +1016,114 @@ def check_structure(w, m, tag):
     return viols
 
 
+def list_queries(w, l, o):
+    """Every query of ``o`` that hands out a container: (name, thunk).  Used by the aliasing oracle
+    (a result is a snapshot the caller owns, never a view of the model)."""
+    from armi.reactor.components import Component
+    from armi.reactor.flags import Flags
+
+    qs = [
+        ("getChildren", lambda: o.getChildren()),
+        ("getChildren-deep", lambda: o.getChildren(deep=True)),
+        ("getChildren-generation", lambda: o.getChildren(generationNum=2)),
+        ("getChildren-includeMaterials", lambda: o.getChildren(includeMaterials=True)),
+        ("getChildren-predicate", lambda: o.getChildren(predicate=lambda z: True)),
+        ("getChildren-deep-predicate", lambda: o.getChildren(deep=True, predicate=lambda z: isinstance(z, Component))),
+        ("getComponents", lambda: o.getComponents()),
+        ("getComponents-flags", lambda: o.getComponents(Flags.FUEL)),
+        ("getChildrenWithFlags", lambda: o.getChildrenWithFlags(None)),
+        ("getChildrenWithFlags-flags", lambda: o.getChildrenWithFlags(Flags.FUEL)),
+        ("add-operator", lambda: o + o),
+    ]
+    ks = [c for c in o]
+    if ks and all(_gettype(c) is not None for c in ks):
+        t0 = _gettype(ks[0])
+        qs.append(("getChildrenOfType", lambda: o.getChildrenOfType(t0)))
+    if w.kind[l] == "C":
+        qs += [
+            ("Core.getAssemblies", lambda: o.getAssemblies()),
+            ("Core.getAssemblies-flags", lambda: o.getAssemblies(Flags.FUEL)),
+            ("Core.getAssemblies-includeSFP", lambda: o.getAssemblies(includeSFP=True)),
+            ("Core.getBlocks", lambda: o.getBlocks()),
+            ("Core.getBlocks-flags", lambda: o.getBlocks(Flags.FUEL)),
+        ]
+    if w.kind[l] == "A":
+        qs += [("Assembly.getBlocks", lambda: o.getBlocks()), ("Assembly.getBlocks-flags", lambda: o.getBlocks(Flags.FUEL))]
+    return qs
+
+
+def struct(w):
+    """Child lists and parents of every labelled object, by identity (cheap)."""
+    return [(id(o.parent), [id(c) for c in o]) for o in w.objs]
+
+
+def check_aliasing(w, m):
+    """Whatever a caller does to a returned container (append a foreign node, pop, reverse, clear)
+    leaves the model alone, and the next call gives the same answer."""
+    viols = []
+    before = struct(w)
+    foreign = w.objs[w.root]
+    n = 0
+    for l, o in enumerate(w.objs):
+        if w.kind[l] == "K":
+            continue
+        for qn, q in list_queries(w, l, o):
+            try:
+                first = q()
+                if not isinstance(first, list):
+                    viols.append(_v("query-returns-no-list/" + qn, "node %s: %s returns a %s" % (l, qn, type(first).__name__), w))
+                    continue
+                ref = list(first)
+                r = q()
+                r.append(foreign)
+                r.reverse()
+                r = q()
+                if r:
+                    r.pop()
+                r.clear()
+                n += 4
+                again = q()
+            except Exception as e:
+                viols.append(_v("query-alias-raises-%s/%s" % (type(e).__name__, qn), "node %s: %s raised %s while its results were being edited: %s" % (l, qn, type(e).__name__, str(e)[:120]), w))
+                return viols
+            if struct(w) != before:
+                viols.append(_v("query-result-is-a-view/" + qn, "node %s: editing the container returned by %s (append/pop/reverse/clear) changed the model's child lists" % (l, qn), w))
+                return viols  # the model is damaged now
+            if len(again) != len(ref) or any(a is not b for a, b in zip(again, ref)):
+                viols.append(_v("query-result-not-reproducible/" + qn, "node %s: %s answers differently after an earlier result was edited" % (l, qn), w))
+                return viols
+    _cnt("aliasing:result-edits", n)
+    return viols
+
+
+def take_views(w):
+    """Results handed out BEFORE an edit (with a private copy each)."""
+    out = []
+    for l, o in enumerate(w.objs):
+        if w.kind[l] == "K":
+            continue
+        for qn, q in list_queries(w, l, o):
+            try:
+                r = q()
+            except Exception:
+                continue
+            if isinstance(r, list):
+                out.append((l, qn, r, list(r)))
+    return out
+
+
+def check_views(w, views, op):
+    """... are not changed by the edit: query results are snapshots."""
+    viols = []
+    seen = set()
+    for l, qn, r, saved in views:
+        if (len(r) != len(saved) or any(a is not b for a, b in zip(r, saved))) and qn not in seen:
+            seen.add(qn)
+            viols.append(_v("query-result-changed-by-later-edit/" + qn, "node %s: a list obtained from %s before %s had %d items, after the edit it has %d" % (l, qn, op, len(saved), len(r)), w))
+    _cnt("aliasing:views-held-across-edit", len(views))
+    return viols
+
+
 def check_queries(w, m):
     """Oracle (3): every traversal query against the naive walk."""
     from armi.reactor.components import Component
@@ -1118,6 +1255,26 @@ def check_queries(w, m):
 
             fr = traceback.extract_tb(e.__traceback__)[-1]
             bad("raises-%s/%s" % (type(e).__name__, fr.name), "node %s: a traversal query raised %s (%s) in %s" % (l, type(e).__name__, str(e)[:120], fr.name))
+    # core/assembly level conveniences: same objects as the naive walk (their order is by location)
+    for l, o in enumerate(w.objs):
+        try:
+            if w.kind[l] == "C":
+                nq += 2
+                ks = [c for c in o]
+                got = o.getAssemblies()
+                if sorted(map(id, got)) != sorted(map(id, ks)):
+                    bad("Core.getAssemblies", "core: getAssemblies() gives %s, child list %s" % (labs(got), labs(ks)))
+                got = o.getBlocks()
+                exp = [b for a in ks for b in a]
+                if sorted(map(id, got)) != sorted(map(id, exp)):
+                    bad("Core.getBlocks", "core: getBlocks() gives %s, naive walk %s" % (labs(got), labs(exp)))
+            elif w.kind[l] == "A":
+                nq += 1
+                got = o.getBlocks()
+                if not same(got, [c for c in o]):
+                    bad("Assembly.getBlocks", "node %s: getBlocks() gives %s, child list %s" % (l, labs(got), labs([c for c in o])))
+        except Exception as e:
+            bad("raises-%s/getAssemblies-getBlocks" % type(e).__name__, "node %s: %s" % (l, str(e)[:120]))
     # ancestors (reference: parent chain of the MODEL)
     for l, o in enumerate(w.objs):
         chain = [l]
@@ -1341,17 +1498,6 @@ def expand(item):
     m = Model(w)
     viols, out = [], "ok"
     tag = "build"
-    for k, op in enumerate(hist):
-        last = k == len(hist) - 1
-        out, vs = apply(w, m, op, last)
-        if not last:
-            if vs:
-                raise RuntimeError("violation while replaying the prefix (the prefix state was violation-free when first explored): %s" % vs[0]["msg"])
-            if k < len(outs) and out != outs[k]:
-                raise RuntimeError("prefix replay diverged at %d: %s gave %s, recorded %s" % (k, op, out, outs[k]))
-        else:
-            viols += vs
-            tag = op[0]
     tol = init.get("tolerate") or []
 
     def drop(vs):
@@ -1363,6 +1509,20 @@ def expand(item):
                 keep.append(v)
         return keep
 
+    for k, op in enumerate(hist):
+        last = k == len(hist) - 1
+        views = take_views(w) if last else None
+        out, vs = apply(w, m, op, last)
+        if last and not vs:
+            vs = vs + check_views(w, views, op)
+        if not last:
+            if vs:
+                raise RuntimeError("violation while replaying the prefix (the prefix state was violation-free when first explored): %s" % vs[0]["msg"])
+            if k < len(outs) and out != outs[k]:
+                raise RuntimeError("prefix replay diverged at %d: %s gave %s, recorded %s" % (k, op, out, outs[k]))
+        else:
+            viols += drop(vs)
+            tag = op[0]
     if not viols:
         viols += drop(check_structure(w, m, tag))
     if not viols and not getattr(w, "unchanged", False):
@@ -1375,7 +1535,6 @@ def expand(item):
     res = {
         "canon": canon(w, m),
         "full": full_digest(w, m) if not viols else None,
-        "viols": viols[:6],
         "ops": enabled_ops(w, m) if not viols else [],
         "out": out,
         # never terminal: a refusal that leaves the state where it was has the canonical form of its
@@ -1383,6 +1542,13 @@ def expand(item):
         # such a state must be extended like any other, or the explored set would depend on the order
         "terminal": False,
     }
+    if not viols and not getattr(w, "unchanged", False):
+        # last of all, after everything else has been read off this execution: if a result were a view,
+        # this oracle's own edits would damage the model
+        viols += drop(check_aliasing(w, m))
+        if viols:
+            res["full"], res["ops"] = None, []
+    res["viols"] = viols[:6]
     return res
 
 
